@@ -23,6 +23,7 @@ Ctl == {"Step", "Clock", "End", "Cfg", "Break"}
 ObsApply(o, e) ==
   CASE e.e = "GetCall"         -> ObsGetCall(o, e.w, e.now)
     [] e.e = "GetReturn"       -> ObsGetReturn(o, e.w, e.c, e.fresh, e.now, cfg.life)
+    [] e.e = "GetFail"         -> ObsGetFail(o, e.w)
     [] e.e = "ReturnCall"      -> ObsReturnCall(o, e.w, e.c)
     [] e.e = "ReturnReturn"    -> ObsReturnReturn(o, e.w)
     [] e.e = "ConnClose"       -> ObsConnClose(o, e.c, e.byHolder)
@@ -60,6 +61,7 @@ TReset ==
   /\ clast' = [x \in Conns |-> 0] /\ nconn' = 0
   /\ wpc' = [w \in Workers |-> "idle"] /\ wkey' = [w \in Workers |-> CHOOSE x \in Keys : TRUE]
   /\ wch' = [w \in Workers |-> 0] /\ wcur' = [w \in Workers |-> ""] /\ wheld' = [w \in Workers |-> ""]
+  /\ wctx' = [w \in Workers |-> "live"]
   /\ spc' = "s0" /\ tickPending' = FALSE /\ nextTick' = 0
   /\ async' = {} /\ breaks' = 0 /\ ended' = FALSE /\ obs' = ObsInit
   /\ UNCHANGED schedV
@@ -78,7 +80,10 @@ C_Step ==
   /\ HintStep /\ UNCHANGED schedV
   /\ LET j == NextCtl(l) IN
        \* the key of a Get is not part of the observation state: bind it here
-       /\ (j > l + 1 /\ Trace[l + 1].e = "GetCall") => wkey'[Trace[l + 1].w] = Trace[l + 1].key
+       /\ (j > l + 1 /\ Trace[l + 1].e = "GetCall") =>
+             /\ wkey'[Trace[l + 1].w] = Trace[l + 1].key
+             \* ... nor is the context the caller brought
+             /\ wctx'[Trace[l + 1].w] = Trace[l + 1].cx
        /\ obs' = Fold(obs, l + 1, j - 1)
        /\ l' = j
        /\ Reached(j)
